@@ -288,8 +288,8 @@ class Removals(Stream):
 
     # ---- generation ----
     def gen(self, rng, tier):
-        nh = 110 if tier == 'quick' else 400
-        per = 7 if tier == 'quick' else 35
+        nh = 130 if tier == 'quick' else 400
+        per = 10 if tier == 'quick' else 35
         out = []
         for _ in range(nh):
             fl = 'exp' if rng.random() < 0.72 else 'sub'
@@ -313,10 +313,25 @@ class Removals(Stream):
         return out
 
     # ---- running the implementation ----
+    _cache = None      # (key, epoch, env): the state a history builds, restored instead of replayed
+
+    def _env_for(self, case):
+        key = json.dumps([case['flavour'], case['history']], sort_keys=True)
+        c = Removals._cache
+        if c is not None and c[0] == key and c[1] == B.EPOCH[0]:
+            c[2].restore()
+            return c[2]
+        if c is not None:
+            c[2].close()
+        env = B.replay(case['flavour'], case['history'])
+        env.save()
+        Removals._cache = (key, B.EPOCH[0], env)
+        return env
+
     def observe(self, case):
         env = None
         try:
-            env = B.replay(case['flavour'], case['history'])
+            env = self._env_for(case)
             pre = env.snapshot()
             op = case['op']
             try:
@@ -347,10 +362,8 @@ class Removals(Stream):
             return {'pre': pre, 'post': post, 'outcome': outcome, 'before': before, 'after': after, 'fresh': fresh,
                     'hids': hids, 'history_errors': env.errors}
         except Exception as e:
+            Removals._cache = None
             return {'harness_error': repr(e)}
-        finally:
-            if env is not None:
-                env.close()
 
     # ---- Coq term ----
     def to_coq(self, case, o):
